@@ -493,6 +493,21 @@ impl<'a> Worker<'a> {
         let outs = self.run_pipeline(case);
         let mut v = vec![];
         self.stats.nontrivial.insert(golden_key(case));
+        // meta.compare_stderr: the diagnostics themselves (exit status, text, locations) must be those
+        // of the reference run, whether or not the step succeeds; "<SANDBOX>/" prefixes are dropped
+        // because a path reached through a gamemap is shown canonicalised
+        if case.meta.get("compare_stderr").and_then(|b| b.as_bool()).unwrap_or(false) {
+            let norm = |o: &Outcome| o.stderr_str().replace("<SANDBOX>/", "");
+            for (i, (go, o)) in g.iter().zip(outs.iter()).enumerate() {
+                if go.exit != o.exit || norm(go) != norm(o) {
+                    let tagv = case.meta.get("variant").and_then(|x| x.as_str()).unwrap_or("same-diagnostics").to_string();
+                    v.push(Violation { class: format!("{}:diagnostics-differ:{}", tagv, cmd_kind(&case.steps[i])), detail: format!("reference run (exit {:?}):\n{}\nthis run (exit {:?}):\n{}", go.exit, short(&go.stderr, 500), o.exit, short(&o.stderr, 500)) });
+                    return v;
+                }
+            }
+            self.stats.probe("same-diagnostics-as-reference");
+            return v;
+        }
         let tag = case.meta.get("variant").and_then(|x| x.as_str()).unwrap_or("stale-output").to_string();
         let strict = tag != "stale-output";
         for (i, (go, o)) in g.iter().zip(outs.iter()).enumerate() {
